@@ -122,5 +122,23 @@ func processShape(newShape, currentShape []int) error {
 		}
 	}
 
+	// The new shape must hold exactly the elements of the tensor. The product is built
+	// step by step, as a product that overflows can wrap around to the right number.
+	if totalSize > 0 {
+		size := 1
+
+		for _, dim := range newShape {
+			if dim <= 0 || size > totalSize/dim {
+				return ops.ErrDimension("the new shape does not hold the same number of elements as the tensor")
+			}
+
+			size *= dim
+		}
+
+		if size != totalSize {
+			return ops.ErrDimension("the new shape does not hold the same number of elements as the tensor")
+		}
+	}
+
 	return nil
 }
